@@ -3,9 +3,9 @@
 #        tools/mutant.sh <Cxx> --patch <patch-file> [extra fv args]
 # Applies a mutation to a scratch worktree of /repo (never to /repo itself),
 # builds a scratch copy of the harness against it and runs the quick check.
-# Scratch lives in /tmp/wt_main and /tmp/h_main; remove with tools/mutant.sh --clean
+# Scratch lives in /tmp/wt_$MUT_SLOT and /tmp/h_$MUT_SLOT (slot "main" by default); remove with [MUT_SLOT=x] tools/mutant.sh --clean
 set -u
-wt=/tmp/wt_main; h=/tmp/h_main
+slot=${MUT_SLOT:-main}; wt=/tmp/wt_$slot; h=/tmp/h_$slot
 if [ "${1:-}" = "--clean" ]; then
     git -C /repo worktree remove --force $wt 2>/dev/null; rm -rf $h $wt; git -C /repo worktree prune; exit 0
 fi
@@ -32,5 +32,5 @@ PY
 fi
 git -C $wt diff --stat | tail -1
 cd $h/harness && CARGO_NET_OFFLINE=true cargo build --release --offline 2>&1 | grep -E '^error' -A8 | head -20
-FV_ROOT=$h ./target/release/fv $prop quick "$@" 2>&1 | grep -E '^VIOLATION|held on|INCONCLUSIVE|KNOWN' | cut -c1-260 | head -6
+FV_ROOT=$h ./target/release/fv $prop quick "$@" 2>&1 | grep -E '^VIOLATION|held on|INCONCLUSIVE|KNOWN' | cut -c1-700 | head -6
 git -C $wt reset -q --hard
